@@ -231,10 +231,11 @@ def blockCommentLen : List Nat → Nat
   | _ :: s => blockCommentLen s + 1
 
 /-- `consume_comment` (lexer.rs:464): the new position. A line comment stops *before* the
-line feed. -/
+vertical space (U+000A … U+000D, grammar rule 62) that ends it — since the repair 20fca88; before
+it only the line feed ended a line comment. -/
 def consumeComment (inp : List Nat) (pos : Nat) : Nat :=
   match inp[pos]?, inp[pos + 1]? with
-  | some 47, some 47 => pos + 2 + countWhile (fun c => c != 10) (inp.drop (pos + 2))
+  | some 47, some 47 => pos + 2 + countWhile (fun c => !isVerticalSpace c) (inp.drop (pos + 2))
   | some 47, some 42 => pos + 2 + blockCommentLen (inp.drop (pos + 2))
   | _, _ => pos
 
@@ -269,7 +270,7 @@ def readBuf (inp : List Nat) (pos : Nat) : List Nat :=
 
 /-- The loop of `is_next_character` (lexer.rs:966-980) from the absolute position `p`: a comment
 is jumped over (`comment_end`, lexer.rs:984 — the same end as `consume_comment` finds: a line
-comment ends before the line feed, an unterminated one at the end of input), white space is
+comment ends before the vertical space, an unterminated one at the end of input), white space is
 stepped over, any other character decides.  At most `fuel` rounds; every round moves `p`
 forward, so the budget `len − p + 1` of `isNextCharacter` is never exhausted
 (`nextCharLoop_fuel` in `Lemmas/LexerNextChar.lean`). -/
